@@ -117,6 +117,22 @@ def run(prog, rep):
     if not npaths:
         pprobs.append('no returning path on an open file')
     rule.check(not pprobs, 'close|sweep-unconditional', rep.where(cl), cl.q, 'every returning path on an open file enumerates the open objects (%d abstract paths)' % npaths, '; '.join(sorted(set(pprobs))[:2]))
+    # (2c) the guard of close() is the validity of the file id and nothing else: while the file id is valid, isOpen() is true
+    # (C11j: isOpen() && root.isValid() - after another File object swept the shared file, close() returned at its guard and kept the id)
+    io = prog.fn('nix::hdf5::FileHDF5::isOpen')
+    itq = GenericInterp(prog)
+    oprobs = []
+    nq = 0
+    for assign, out, log, fields in itq.enumerate(io, this='THIS', args=[]):
+        nq += 1
+        own = [v for k, v in assign.items() if k[0] == 'bool' and k[1] == 'isValid' and k[2:] == ('THIS',)]
+        if out[0] != 'ret' or not own:
+            oprobs.append('isOpen() has a path that does not ask isValid() of the file id (%r)' % (out,))
+            continue
+        if out[1] is not own[0]:
+            others = [repr(k)[:60] for k in assign if not (k[0] == 'bool' and k[1] == 'isValid' and k[2:] == ('THIS',))]
+            oprobs.append('isOpen() returns %r while isValid() of the file id is %r (depends on %s): close() returns at its guard and never releases a file id that is still valid' % (out[1], own[0], ', '.join(others) or '?'))
+    rule.check(not oprobs and nq >= 2, 'close|guard-is-file-id', rep.where(io), io.q, 'isOpen() == isValid() of the file id on all %d abstract paths' % nq, '; '.join(sorted(set(oprobs))[:2]) or 'isOpen() does not test isValid()')
     # (3) every open object id is obtained and closed H5Iget_ref(id) times
     from ..sem import Flow
     fl = Flow(sem, cl)
